@@ -98,3 +98,100 @@ Example c02_nonvacuous_unpinned_reuse :
                   VCommit [2] [5]] vinit = Some s /\
             v_alloc s = [2; 6; 1] /\ v_freed s = [] /\ sget 2 (v_stamp s) = Some 6 /\ In 2 (reach s 2).
 Proof. eexists. vm_compute. repeat split. left. reflexivity. Qed.
+
+(* ================================================================== the cache layer (part (b) of the design)
+   Model Storage/Cache.v of `PagedCachedFile` (read cache, striped write buffer with pages taken by WritablePages,
+   committed_pages_buffered, the two counters, next_eviction_stripe) over `CheckedBackend` (Storage/Latch.v) and a
+   byte-array backend.  Quantified over: every cache budget (0 included) and page size, every choice of evicted /
+   written-back pages, skipped (try_lock) stripes and HashMap iteration orders (the `oracle`), every call sequence
+   inside the usage protocol of page_manager.rs (`protocol_ok`: a page with a live WritablePage is not read or
+   written; PageHint::Clean only for pages not written since the last write_barrier/flush; ranges that may be
+   cached are re-accessed exactly or not at all; a cancelled / discarded write leaves its range undefined until it
+   is rewritten; flush / write_barrier / discard without live WritablePages), including flush_write_buffer split
+   into its per-stripe critical sections (OFlushStripes j k; OFlushEnd) with reads interleaved between them.
+   Tied to the code by harness bin `cachecorr` (props/cache_common.py).
+   Partial: the LRU second-chance order is abstracted to an arbitrary choice (sound over-approximation); a call is
+   atomic (interleavings inside read()/write() are not modelled); usize wrap-around of the counters is not modelled. *)
+From RV Require Import Base.Bytes Storage.Backend Storage.Latch Storage.Cache Storage.CacheInv Storage.CacheP.
+
+(* fault-free backend: every read / write() returns the bytes of the last write to that range (or the initial file
+   bytes): the cache layer is observationally the plain byte array `Backend.image` with `Backend.apply_op` *)
+Theorem c02_cache_coherent : forall c f p,
+  (forall x o, In (x, o) p -> fault_free o) ->
+  protocol_ok c (blen f) (map fst p) = true ->
+  spec_trace (image_of f) (map fst p) (map snd (snd (run c (init_state f) p))).
+Proof. exact cache_coherent. Qed.
+
+(* ... and after flush() the backend holds exactly that array (outside ranges left undefined by a cancelled or
+   discarded write): nothing buffered is lost, the buffer is empty, the flag is clear *)
+Theorem c02_cache_flush_writes_back : forall c f p o g,
+  (forall x o0, In (x, o0) p -> fault_free o0) -> fault_free o ->
+  proto_run c (g_init (blen f)) (map fst p ++ [OFlush]) = Some g ->
+  let s := fst (run c (init_state f) (p ++ [(OFlush, o)])) in
+  let I := ideal_run (image_of f) (map fst p) in
+  wb s = [] /\ cpb s = false /\ blen (file s) = ilen I /\
+  forall i, (forall r, In r (g_poison g) -> ~ in_rng r i) -> fget (file s) i = iat I i.
+Proof. exact cache_flush_writes_back. Qed.
+
+(* all page writes of a flush precede its sync_data, which is issued only if every one of them succeeded *)
+Theorem c02_cache_flush_order : forall c s o s' t r,
+  step c s OFlush o = (s', t, r) ->
+  exists ws tl, t = ws ++ tl /\ Forall (fun e => is_write_ev e = true) ws /\
+                (tl = [] \/ (exists e, tl = [e] /\ is_sync_ev e = true /\ Forall (fun w => e_ok w = true) ws)).
+Proof. exact flush_order. Qed.
+
+(* committed_pages_buffered is false only when no committed page is solely in the write buffer (every buffered page
+   was written since the last write_barrier) -- in every reachable state, under arbitrary backend failures, and in
+   particular between the per-stripe steps of a flush with readers interleaved *)
+Theorem c02_cache_flag_invariant : forall c f p s g I out,
+  run_track c (init_state f) (g_init (blen f)) (image_of f) p = Some (s, g, I, out) ->
+  cpb s = false -> forall o v, In (o, v) (wb s) -> In o (g_unc g).
+Proof. exact flag_invariant. Qed.
+
+Theorem c02_cache_flush_progress : forall c f p s g I out k,
+  run_track c (init_state f) (g_init (blen f)) (image_of f) p = Some (s, g, I, out) ->
+  g_flushing g = Some k -> forall o v, In (o, v) (wb s) -> k <= stripe o.
+Proof. exact flush_progress. Qed.
+
+(* the read cache never exceeds max_cache_size, its counter is exact, and with budget 0 it stays empty *)
+Theorem c02_cache_budget : forall c f p s g I out,
+  run_track c (init_state f) (g_init (blen f)) (image_of f) p = Some (s, g, I, out) ->
+  rc_bytes s = sum_rc (rc s) /\ sum_rc (rc s) <= max_cache c /\ (max_cache c = 0 -> rc s = []).
+Proof. exact read_cache_budget. Qed.
+
+(* ---- non-vacuity: 4-byte pages, a 16-byte budget, a 1056-byte file *)
+Definition c02_cache_cfg := mkC 4 16.
+Definition c02_cache_file : bytes := map (fun i => N.of_nat i mod 251) (seq 0 1056).
+Definition c02_cache_prog : list (Cache.op * oracle) :=
+ [ (OWrite 0 4 true, o_none); (ODrop 0 [1;1;1;1], o_none);
+   (OWrite 4 4 false, o_none); (ODrop 4 [4;5;9;9], o_none);
+   (OWrite 8 4 true, o_none);                       (* over half of the budget: page 0 is written out (Required) *)
+   (ODrop 8 [8;8;8;8], o_none);
+   (OBarrier, o_none);                              (* non-durable commit: the flag is set *)
+   (ORead 4 4 HClean, o_none);                      (* served from the write buffer, copied into the read cache *)
+   (OFlushStripes 0 5, o_none);                     (* flush_write_buffer, stripes 0..4: page 4 *)
+   (ORead 8 4 HClean, o_none);                      (* a reader between two stripes: page 8 is only in the buffer *)
+   (OFlushStripes 5 131, o_none); (OFlushEnd, o_none); (OSync, o_none);
+   (ORead 524 4 HClean, o_none);                    (* lock stripe 0 *)
+   (ORead 0 4 HClean, o_none);                      (* lock stripe 0: the read cache is full now *)
+   (ORead 1048 4 HClean, mkO [524] [] [] [] []);    (* stripe 0, over budget: the oracle evicts page 524 *)
+   (OInvalidate 0 4, o_none); (OCancel 0 4, o_none);  (* free page 0 *)
+   (OResize 1052, o_none); (OLen, o_none);
+   (OFlush, o_none); (OReadDirect 4 8, o_none) ].
+Example c02_cache_nonvacuous :
+  protocol_ok c02_cache_cfg 1056 (map fst c02_cache_prog) = true /\
+  (forall x o, In (x, o) c02_cache_prog -> fault_free o) /\
+  (let '(s, out) := run c02_cache_cfg (init_state c02_cache_file) c02_cache_prog in
+   map snd out =
+     [Data [0;0;0;0]; Done; Data [4;5;6;7]; Done; Data [0;0;0;0]; Done; Done; Data [4;5;9;9]; Done; Data [8;8;8;8];
+      Done; Done; Done; Data [22;23;24;25]; Data [1;1;1;1]; Data [44;45;46;47]; Done; Done; Done; Len 1052; Done;
+      Data [4;5;9;9;8;8;8;8]] /\
+   nth 4 (map fst out) [] = [mkEv (BWrite 0 [1;1;1;1]) true false] /\       (* the eviction by write() *)
+   nth 7 (map fst out) [mkEv BSync true false] = [] /\                      (* Clean read served from the buffer *)
+   nth 9 (map fst out) [mkEv BSync true false] = [] /\                      (* ... also in the middle of the flush *)
+   map fst (rc s) = [1048; 8; 4] /\ wb s = [] /\ cpb s = false /\ firstn 12 (file s) = [1;1;1;1;4;5;9;9;8;8;8;8]).
+Proof.
+  split; [vm_compute; reflexivity|]. split.
+  - intros x o H. simpl in H. repeat (destruct H as [H|H]; [inversion H; subst; intros b []|]). destruct H.
+  - vm_compute. repeat split; reflexivity.
+Qed.
